@@ -28,7 +28,7 @@ IMPORTS = ["(scheme base)", "(scheme write)", "(scheme read)", "(scheme char)", 
 PRELUDE = os.path.join(E.VERIF, "harness", "scm", "prelude_c08.scm")
 RULE = ("case = datum built by a constructor expression (tree depth <= 6 over exact integers / ratios / flonums from bit patterns / "
         "complex / chars / strings / symbols over all scalar values / lists / dotted lists / vectors / bytevectors / shared and "
-        "circular structure with <= 6 labels), or a block of doubles given as bit patterns, or a block of 4096 scalar values, or a "
+        "circular structure with <= 6 labels, and lists / vectors of 20-200 shared cells for the label table's growth), or a block of doubles given as bit patterns, or a block of 4096 scalar values, or a "
         "text fed to both readers; non-trivial iff the datum contains a flonum needing >= 16 significant digits, a non-ASCII or "
         "escaped character, a symbol needing bars, a bignum / ratio / complex, or a datum label; distinct by case digest")
 ASSUMPTIONS = ["bytevector-ieee-double-native-ref is a memcpy (independent of readers and writers)",
@@ -248,6 +248,17 @@ class TreeGen(object):
         self.tags.add("dag")
         n = 2 + ch.n(4)
         binds = []
+        if ch.p(0.12):
+            # many labels: the reader's label table starts small and grows by doubling; every shared cell is complete
+            # before the next label is opened and is referenced again after all of them
+            self.tags.add("many-labels")
+            n = ch.pick([20, 21, 22, 23, 24, 25, 26, 30, 40, 46, 47, 48, 49, 50, 94, 95, 96, 100, 130, 200]) + ch.n(3)
+            binds = ["(s%d %s)" % (i, ch.pick(["(list %d)" % i, "(vector %d)" % i, "(cons %d %d)" % (i, i)])) for i in range(n)]
+            order = list(range(n))
+            if ch.p(0.5):
+                random.Random(ch.n(1000)).shuffle(order)
+            return "(let* (%s) (%s %s %s))" % (" ".join(binds), ch.pick(["list", "vector"]), " ".join("s%d" % i for i in range(n)),
+                                               " ".join("s%d" % i for i in order))
         if ch.p(0.35):
             # a chain of tails, each of them also referenced directly: (x . #0=(y . #1=(z)))
             self.tags.add("shared-tail-chain")
